@@ -38,6 +38,31 @@ theorem inv3_init {fp : FdlParams} {slots : List (Option Peripheral)} (h : InitO
   exact ⟨fun _ => rfl, (by rw [hs]; intro h; cases h), (by rw [hs]; intro h; cases h), (by rw [hs]; intro h; cases h),
     (by rw [hs]; intro h; rcases h with h | h <;> cases h)⟩
 
+/-- `f &&& 2^k = 0` iff bit `k` of `f` is clear, in div/mod form. -/
+theorem and_pow_zero_iff (f : UInt16) (k : Nat) (hk : k < 16) :
+    f &&& UInt16.ofNat (2 ^ k) = 0 ↔ f.toNat / 2 ^ k % 2 = 0 := by
+  rw [← UInt16.toNat_inj, UInt16.toNat_and]
+  have h2 : (UInt16.ofNat (2 ^ k)).toNat = 2 ^ k := by
+    rw [UInt16.toNat_ofNat']
+    exact Nat.mod_eq_of_lt (Nat.pow_lt_pow_right (by decide) hk)
+  rw [h2, UInt16.toNat_zero]
+  have key : f.toNat &&& 2 ^ k = 0 ↔ f.toNat.testBit k = false := by
+    constructor
+    · intro h
+      have := congrArg (fun n => Nat.testBit n k) h
+      simpa [Nat.testBit_and, Nat.testBit_two_pow_self] using this
+    · intro h
+      apply Nat.eq_of_testBit_eq
+      intro i
+      rw [Nat.testBit_and, Nat.testBit_two_pow, Nat.zero_testBit]
+      by_cases hki : k = i
+      · subst hki; simp [h]
+      · simp [hki]
+  rw [key, Nat.testBit_eq_decide_div_mod_eq]
+  have : f.toNat / 2 ^ k % 2 < 2 := Nat.mod_lt _ (by decide)
+  simp only [decide_eq_false_iff_not]
+  omega
+
 theorem readyFlags_iff (t : Telegram) :
     readyFlags t = true ↔ (flagsOf t &&& PARAMETER_FAULT = 0 ∧ flagsOf t &&& CONFIGURATION_FAULT = 0 ∧
       flagsOf t &&& PARAMETER_REQUIRED = 0 ∧ flagsOf t &&& STATION_NOT_READY = 0) := by
